@@ -447,6 +447,9 @@ def custom_main(tier, seed, runner):
             core = [n for n in NAMES if n <= 'i']
             histories = [h for h in itertools.product(core, repeat=depth)]
             histories += [h for h in itertools.product(NAMES, repeat=depth - 1) if not all(x in core for x in h)]
+        # items p, q hold nodes with several cell references: the order in which such references are taken must
+        # not depend on where earlier conversions left the allocator - converted twice more after every item
+        histories += [(n, x, x) for n in NAMES for x in ('p', 'q')]
         fps = set()
         closed = True
         changed_paths = set()
